@@ -303,6 +303,7 @@ macro_rules! gen_exec1 {
                     }
                 },
                 Call::Cow => Outcome::skip("cow on a slot without shared storage"),
+                Call::Sibling { .. } => Outcome::skip("sibling on a slot whose storage cannot be shared"),
             }
         }
     };
@@ -447,6 +448,7 @@ macro_rules! gen_exec2 {
                     }
                 },
                 Call::Cow => Outcome::skip("cow on a slot without shared storage"),
+                Call::Sibling { .. } => Outcome::skip("sibling on a slot whose storage cannot be shared"),
             }
         }
     };
@@ -489,6 +491,9 @@ fn leak<A: 'static>(a: A, keep: &mut Keep) -> &'static A {
     unsafe { &*p }
 }
 
+/// builds a sibling interpolator over the same storage, queries it once, drops it
+pub type SibFn = Box<dyn Fn(&Call) -> Outcome + Send + Sync>;
+
 pub struct S1<T: El, Sd, Sx, D, St>
 where
     Sd: Data<Elem = T>,
@@ -499,6 +504,7 @@ where
     // field order = drop order: the interpolator goes before the arrays its views point into
     it: ForceSync<Interp1D<Sd, Sx, D, St>>,
     cow: Option<ForceSync<ArcArray<T, D>>>,
+    sib: Option<SibFn>,
     _keep: ForceSync<Keep>,
 }
 
@@ -511,7 +517,114 @@ where
 {
     it: ForceSync<Interp2D<Sd, Sx, Sy, D, St>>,
     cow: Option<ForceSync<ArcArray<T, D>>>,
+    sib: Option<SibFn>,
     _keep: ForceSync<Keep>,
+}
+
+/// sibling interpolators exist for f64 storage only (the spline strategy needs `SplineNum`)
+pub trait SibEl: El {
+    fn sib1<Sd, Sx, D>(data: ndarray::ArrayBase<Sd, D>, x: ndarray::ArrayBase<Sx, Ix1>) -> Option<SibFn>
+    where
+        Sd: Data<Elem = Self> + ndarray::RawDataClone + Send + Sync + 'static,
+        Sx: Data<Elem = Self> + ndarray::RawDataClone + Send + Sync + 'static,
+        D: Dimension + ndarray::RemoveAxis + Send + Sync + 'static;
+    fn sib2<Sd, Sx, Sy, D>(data: ndarray::ArrayBase<Sd, D>, x: ndarray::ArrayBase<Sx, Ix1>, y: ndarray::ArrayBase<Sy, Ix1>) -> Option<SibFn>
+    where
+        Sd: Data<Elem = Self> + ndarray::RawDataClone + Send + Sync + 'static,
+        Sx: Data<Elem = Self> + ndarray::RawDataClone + Send + Sync + 'static,
+        Sy: Data<Elem = Self> + ndarray::RawDataClone + Send + Sync + 'static,
+        D: Dimension + ndarray::RemoveAxis + Send + Sync + 'static,
+        D::Smaller: ndarray::RemoveAxis;
+}
+
+impl SibEl for f32 {
+    fn sib1<Sd, Sx, D>(_: ndarray::ArrayBase<Sd, D>, _: ndarray::ArrayBase<Sx, Ix1>) -> Option<SibFn>
+    where
+        Sd: Data<Elem = Self> + ndarray::RawDataClone + Send + Sync + 'static,
+        Sx: Data<Elem = Self> + ndarray::RawDataClone + Send + Sync + 'static,
+        D: Dimension + ndarray::RemoveAxis + Send + Sync + 'static,
+    {
+        None
+    }
+    fn sib2<Sd, Sx, Sy, D>(_: ndarray::ArrayBase<Sd, D>, _: ndarray::ArrayBase<Sx, Ix1>, _: ndarray::ArrayBase<Sy, Ix1>) -> Option<SibFn>
+    where
+        Sd: Data<Elem = Self> + ndarray::RawDataClone + Send + Sync + 'static,
+        Sx: Data<Elem = Self> + ndarray::RawDataClone + Send + Sync + 'static,
+        Sy: Data<Elem = Self> + ndarray::RawDataClone + Send + Sync + 'static,
+        D: Dimension + ndarray::RemoveAxis + Send + Sync + 'static,
+        D::Smaller: ndarray::RemoveAxis,
+    {
+        None
+    }
+}
+
+fn build_outcome<T: El>(r: Result<Result<Result<ArrayD<T>, InterpolateError>, BuilderError>, String>) -> Outcome {
+    match r {
+        Err(p) => Outcome::new(Class::Panic, p),
+        Ok(Err(e)) => Outcome::new(Class::Err, format!("build: {e:?}")),
+        Ok(Ok(q)) => from_array(Ok(q)),
+    }
+}
+
+impl SibEl for f64 {
+    fn sib1<Sd, Sx, D>(data: ndarray::ArrayBase<Sd, D>, x: ndarray::ArrayBase<Sx, Ix1>) -> Option<SibFn>
+    where
+        Sd: Data<Elem = f64> + ndarray::RawDataClone + Send + Sync + 'static,
+        Sx: Data<Elem = f64> + ndarray::RawDataClone + Send + Sync + 'static,
+        D: Dimension + ndarray::RemoveAxis + Send + Sync + 'static,
+    {
+        let hold = ForceSync((data, x));
+        Some(Box::new(move |call: &Call| {
+            let Call::Sibling { strat, x: qx, .. } = call else { return Outcome::skip("not a sibling call") };
+            let (data, x) = (hold.0 .0.clone(), hold.0 .1.clone());
+            match strat {
+                SibStrat::Linear { extrapolate } => build_outcome(guard(|| {
+                    Interp1DBuilder::new(data).x(x).strategy(Linear::new().extrapolate(*extrapolate)).build().map(|it| it.interp(qx.0).map(|a| a.into_dyn()))
+                })),
+                SibStrat::Spline { bc, extrapolate } => {
+                    let bc: BoundaryCondition<f64, D> = match bc {
+                        Bc::Natural => BoundaryCondition::Natural,
+                        Bc::Clamped => BoundaryCondition::Clamped,
+                        Bc::Periodic => BoundaryCondition::Periodic,
+                        _ => BoundaryCondition::NotAKnot,
+                    };
+                    build_outcome(guard(|| {
+                        Interp1DBuilder::new(data)
+                            .x(x)
+                            .strategy(CubicSpline::new().extrapolate(*extrapolate).boundary(bc))
+                            .build()
+                            .map(|it| it.interp(qx.0).map(|a| a.into_dyn()))
+                    }))
+                }
+                SibStrat::Bilinear { .. } => Outcome::skip("2-D sibling on a 1-D slot"),
+            }
+        }))
+    }
+    fn sib2<Sd, Sx, Sy, D>(data: ndarray::ArrayBase<Sd, D>, x: ndarray::ArrayBase<Sx, Ix1>, y: ndarray::ArrayBase<Sy, Ix1>) -> Option<SibFn>
+    where
+        Sd: Data<Elem = f64> + ndarray::RawDataClone + Send + Sync + 'static,
+        Sx: Data<Elem = f64> + ndarray::RawDataClone + Send + Sync + 'static,
+        Sy: Data<Elem = f64> + ndarray::RawDataClone + Send + Sync + 'static,
+        D: Dimension + ndarray::RemoveAxis + Send + Sync + 'static,
+        D::Smaller: ndarray::RemoveAxis,
+    {
+        let hold = ForceSync((data, x, y));
+        Some(Box::new(move |call: &Call| {
+            let Call::Sibling { strat, x: qx, y: qy } = call else { return Outcome::skip("not a sibling call") };
+            let (data, x, y) = (hold.0 .0.clone(), hold.0 .1.clone(), hold.0 .2.clone());
+            match strat {
+                SibStrat::Bilinear { extrapolate } => build_outcome(guard(|| {
+                    Interp2DBuilder::new(data)
+                        .x(x)
+                        .y(y)
+                        .strategy(Bilinear::new().extrapolate(*extrapolate))
+                        .build()
+                        .map(|it| it.interp(qx.0, qy.0).map(|a| a.into_dyn()))
+                })),
+                _ => Outcome::skip("1-D sibling on a 2-D slot"),
+            }
+        }))
+    }
 }
 
 fn do_cow<T: El, D: Dimension>(master: &ArcArray<T, D>) -> Outcome {
@@ -541,6 +654,9 @@ macro_rules! impl_slot1 {
                 if let (Call::Cow, Some(m)) = (call, &self.cow) {
                     return do_cow(&m.0);
                 }
+                if let (Call::Sibling { .. }, Some(f)) = (call, &self.sib) {
+                    return f(call);
+                }
                 $f(&self.it.0, call)
             }
         }
@@ -563,6 +679,9 @@ macro_rules! impl_slot2 {
             fn call(&self, call: &Call) -> Outcome {
                 if let (Call::Cow, Some(m)) = (call, &self.cow) {
                     return do_cow(&m.0);
+                }
+                if let (Call::Sibling { .. }, Some(f)) = (call, &self.sib) {
+                    return f(call);
                 }
                 $f(&self.it.0, call)
             }
@@ -671,20 +790,20 @@ fn boundary<T: El, D: Dimension>(cfg: &SlotCfg) -> Result<BoundaryCondition<T, D
 
 /// finish a 1-D slot from ready-made arrays: `$data`, `$x` (Option for owned axes), strategy `$strat`
 macro_rules! finish1 {
-    ($T:ty, $D:ty, $data:expr, $x:expr, $strat:expr, $cow:expr, $keep:expr) => {{
+    ($T:ty, $D:ty, $data:expr, $x:expr, $strat:expr, $cow:expr, $sib:expr, $keep:expr) => {{
         let r = guard(|| Interp1DBuilder::new($data).x($x).strategy($strat).build());
         match r {
             Err(p) => Err(BuildFail::Panic(p)),
             Ok(Err(e)) => Err(berr(e)),
-            Ok(Ok(it)) => Ok(Box::new(S1::<$T, _, _, $D, _> { it: ForceSync(it), cow: $cow, _keep: ForceSync($keep) }) as Box<dyn Slot>),
+            Ok(Ok(it)) => Ok(Box::new(S1::<$T, _, _, $D, _> { it: ForceSync(it), cow: $cow, sib: $sib, _keep: ForceSync($keep) }) as Box<dyn Slot>),
         }
     }};
-    (default_axis; $T:ty, $D:ty, $data:expr, $strat:expr, $cow:expr, $keep:expr) => {{
+    (default_axis; $T:ty, $D:ty, $data:expr, $strat:expr, $cow:expr, $sib:expr, $keep:expr) => {{
         let r = guard(|| Interp1DBuilder::new($data).strategy($strat).build());
         match r {
             Err(p) => Err(BuildFail::Panic(p)),
             Ok(Err(e)) => Err(berr(e)),
-            Ok(Ok(it)) => Ok(Box::new(S1::<$T, _, _, $D, _> { it: ForceSync(it), cow: $cow, _keep: ForceSync($keep) }) as Box<dyn Slot>),
+            Ok(Ok(it)) => Ok(Box::new(S1::<$T, _, _, $D, _> { it: ForceSync(it), cow: $cow, sib: $sib, _keep: ForceSync($keep) }) as Box<dyn Slot>),
         }
     }};
 }
@@ -698,26 +817,30 @@ macro_rules! storages1 {
         let mut keep = Keep(vec![]);
         match $cfg.storage {
             Storage::Owned => match xv {
-                Some(x) => finish1!($T, $D, data, x, $strat, None, keep),
-                None => finish1!(default_axis; $T, $D, data, $strat, None, keep),
+                Some(x) => finish1!($T, $D, data, x, $strat, None, None, keep),
+                None => finish1!(default_axis; $T, $D, data, $strat, None, None, keep),
             },
             Storage::View => {
                 let d: &'static Array<$T, $D> = leak(data, &mut keep);
                 let x: &'static Array1<$T> = leak(xv.unwrap_or_else(dflt), &mut keep);
-                finish1!($T, $D, d.view(), x.view(), $strat, None, keep)
+                let sib = <$T as SibEl>::sib1(d.view(), x.view());
+                finish1!($T, $D, d.view(), x.view(), $strat, None, sib, keep)
             }
             Storage::DataView => {
                 let d: &'static Array<$T, $D> = leak(data, &mut keep);
+                let xs: &'static Array1<$T> = leak($cfg.axis_x().into_iter().map(<$T as El>::from64).collect::<Array1<$T>>(), &mut keep);
+                let sib = <$T as SibEl>::sib1(d.view(), xs.view());
                 match xv {
-                    Some(x) => finish1!($T, $D, d.view(), x, $strat, None, keep),
-                    None => finish1!(default_axis; $T, $D, d.view(), $strat, None, keep),
+                    Some(x) => finish1!($T, $D, d.view(), x, $strat, None, sib, keep),
+                    None => finish1!(default_axis; $T, $D, d.view(), $strat, None, sib, keep),
                 }
             }
             Storage::Shared => {
                 let d: ArcArray<$T, $D> = data.into_shared();
                 let master = d.clone();
                 let x: ArcArray<$T, ndarray::Ix1> = xv.unwrap_or_else(dflt).into_shared();
-                finish1!($T, $D, d, x, $strat, Some(ForceSync(master)), keep)
+                let sib = <$T as SibEl>::sib1(d.clone(), x.clone());
+                finish1!($T, $D, d, x, $strat, Some(ForceSync(master)), sib, keep)
             }
         }
     }};
@@ -738,20 +861,20 @@ macro_rules! probe1_min {
 }
 
 macro_rules! finish2 {
-    ($T:ty, $D:ty, $data:expr, $x:expr, $y:expr, $strat:expr, $cow:expr, $keep:expr) => {{
+    ($T:ty, $D:ty, $data:expr, $x:expr, $y:expr, $strat:expr, $cow:expr, $sib:expr, $keep:expr) => {{
         let r = guard(|| Interp2DBuilder::new($data).x($x).y($y).strategy($strat).build());
         match r {
             Err(p) => Err(BuildFail::Panic(p)),
             Ok(Err(e)) => Err(berr(e)),
-            Ok(Ok(it)) => Ok(Box::new(S2::<$T, _, _, _, $D, _> { it: ForceSync(it), cow: $cow, _keep: ForceSync($keep) }) as Box<dyn Slot>),
+            Ok(Ok(it)) => Ok(Box::new(S2::<$T, _, _, _, $D, _> { it: ForceSync(it), cow: $cow, sib: $sib, _keep: ForceSync($keep) }) as Box<dyn Slot>),
         }
     }};
-    (default_axis; $T:ty, $D:ty, $data:expr, $strat:expr, $cow:expr, $keep:expr) => {{
+    (default_axis; $T:ty, $D:ty, $data:expr, $strat:expr, $cow:expr, $sib:expr, $keep:expr) => {{
         let r = guard(|| Interp2DBuilder::new($data).strategy($strat).build());
         match r {
             Err(p) => Err(BuildFail::Panic(p)),
             Ok(Err(e)) => Err(berr(e)),
-            Ok(Ok(it)) => Ok(Box::new(S2::<$T, _, _, _, $D, _> { it: ForceSync(it), cow: $cow, _keep: ForceSync($keep) }) as Box<dyn Slot>),
+            Ok(Ok(it)) => Ok(Box::new(S2::<$T, _, _, _, $D, _> { it: ForceSync(it), cow: $cow, sib: $sib, _keep: ForceSync($keep) }) as Box<dyn Slot>),
         }
     }};
 }
@@ -769,29 +892,35 @@ macro_rules! storages2 {
         match $cfg.storage {
             Storage::Owned => {
                 if explicit {
-                    finish2!($T, $D, data, xv, yv, $strat, None, keep)
+                    finish2!($T, $D, data, xv, yv, $strat, None, None, keep)
                 } else {
-                    finish2!(default_axis; $T, $D, data, $strat, None, keep)
+                    finish2!(default_axis; $T, $D, data, $strat, None, None, keep)
                 }
             }
             Storage::View => {
                 let d: &'static Array<$T, $D> = leak(data, &mut keep);
                 let x: &'static Array1<$T> = leak(xv, &mut keep);
                 let y: &'static Array1<$T> = leak(yv, &mut keep);
-                finish2!($T, $D, d.view(), x.view(), y.view(), $strat, None, keep)
+                let sib = <$T as SibEl>::sib2(d.view(), x.view(), y.view());
+                finish2!($T, $D, d.view(), x.view(), y.view(), $strat, None, sib, keep)
             }
             Storage::DataView => {
                 let d: &'static Array<$T, $D> = leak(data, &mut keep);
+                let xs: &'static Array1<$T> = leak(xv.clone(), &mut keep);
+                let ys: &'static Array1<$T> = leak(yv.clone(), &mut keep);
+                let sib = <$T as SibEl>::sib2(d.view(), xs.view(), ys.view());
                 if explicit {
-                    finish2!($T, $D, d.view(), xv, yv, $strat, None, keep)
+                    finish2!($T, $D, d.view(), xv, yv, $strat, None, sib, keep)
                 } else {
-                    finish2!(default_axis; $T, $D, d.view(), $strat, None, keep)
+                    finish2!(default_axis; $T, $D, d.view(), $strat, None, sib, keep)
                 }
             }
             Storage::Shared => {
                 let d: ArcArray<$T, $D> = data.into_shared();
                 let master = d.clone();
-                finish2!($T, $D, d, xv.into_shared(), yv.into_shared(), $strat, Some(ForceSync(master)), keep)
+                let (xs, ys) = (xv.into_shared(), yv.into_shared());
+                let sib = <$T as SibEl>::sib2(d.clone(), xs.clone(), ys.clone());
+                finish2!($T, $D, d, xs, ys, $strat, Some(ForceSync(master)), sib, keep)
             }
         }
     }};
